@@ -283,6 +283,7 @@ func c07AccumulateAs(c *Ctx, m *Module, rule string) {
 	r := c.R
 	cr := m.Func("internal/upload", "uploader.createReport")
 	n := 0
+	var foldSites []ssa.Instruction
 	for _, in := range instrsOf(cr) {
 		mu, ok := in.(*ssa.MapUpdate)
 		if !ok {
@@ -315,6 +316,7 @@ func c07AccumulateAs(c *Ctx, m *Module, rule string) {
 				continue
 			}
 			n++
+			foldSites = append(foldSites, mu)
 			add, isAdd := mu.Value.(*ssa.BinOp)
 			okAcc := false
 			if isAdd && add.Op == token.ADD {
@@ -354,6 +356,37 @@ func c07AccumulateAs(c *Ctx, m *Module, rule string) {
 		}
 	}
 	r.Check(rule, "createReport/fold sites", m.Pos(cr.Pos()), n == 2, fmt.Sprintf("%d fold sites (want Stacks and Counters)", n))
+	// every entry of the file is folded: within the range over x.Count no path leads to the
+	// next entry without passing one of the fold stores (zero values and unusual names included)
+	if len(foldSites) > 0 {
+		var inner *loopInfo
+		for _, l := range naturalLoops(cr) {
+			if l.blocks[foldSites[0].Block()] && (inner == nil || len(l.blocks) < len(inner.blocks)) {
+				inner = l
+			}
+		}
+		okAll := inner != nil
+		if inner != nil {
+			isFold := func(in ssa.Instruction) bool {
+				for _, f := range foldSites {
+					if in == f {
+						return true
+					}
+				}
+				return false
+			}
+			var start []walkState
+			for _, sc := range inner.header.Succs {
+				if inner.blocks[sc] {
+					start = append(start, walkState{inner.header, sc, 0})
+				}
+			}
+			skip := walkWithout(start, func(in ssa.Instruction) bool { return in == inner.header.Instrs[0] }, isFold)
+			okAll = skip == nil
+		}
+		r.Check(rule, "createReport/every entry of a count file is folded", m.Pos(foldSites[0].Pos()), okAll,
+			"an entry skipped by the fold loop (a `continue` on its value or name) is missing from the week's report")
+	}
 	// every file of the list is parsed: the loop ranges over the countFiles parameter
 	for _, cs := range callsIn(cr, "(*internal/upload.uploader).parseCountFile") {
 		d := describe(cs.Common().Args[1])
